@@ -11,16 +11,23 @@ def check(ctx):
     ctx.rule("C01.A4", "the ready queue is seeded with exactly the zero-predecessor nodes")
     ctx.rule("C01.A5", "every queue kind: _put adds exactly the item, _get removes exactly what it returns; engine code "
                        "uses only the public queue protocol")
+    ctx.rule("C01.A7", "the callbacks that execute calls / examine stores are invoked only through the engine (no sibling executor); Plan.add_dependency and Plan._call record every declared dependency unconditionally")
     ctx.rule("C01.A6", "node removals in plan transformations preserve dependency paths (complement of ancestor closure, "
                        "predecessor-free nodes, or bridged by the full product of current neighbours)")
     ctx.assume("exceptional edges: every statement containing a call may raise (conservative); CPython/queue.Queue/"
                "threading.Lock/networkx behave as documented; the induction from these premises to the behavioural "
                "statement is the paper argument of DESIGN.md section 4.C01")
     r = E.discover(ctx.model)
-    E.rule_enqueue_after_success(ctx, "C01.A1", r)
-    E.rule_atomic_counter(ctx, "C01.A2", r)
-    E.rule_counting_agreement(ctx, "C01.A3", r, rid_initial="C01.A4")
-    E.rule_initial_ready_set(ctx, "C01.A4", r)
-    E.rule_queue_effects(ctx, "C01.A5", r)
-    E.rule_queue_internals(ctx, "C01.A5", r)
-    rule_pruning_preserves_paths(ctx, "C01.A6")
+    ctx.run(E.rule_enqueue_after_success, "C01.A1", r)
+    ctx.run(E.rule_atomic_counter, "C01.A2", r)
+    ctx.run(E.rule_counting_agreement, "C01.A3", r, rid_initial="C01.A4")
+    ctx.run(E.rule_initial_ready_set, "C01.A4", r)
+    ctx.run(E.rule_queue_effects, "C01.A5", r)
+    ctx.run(E.rule_queue_internals, "C01.A5", r)
+    ctx.run(rule_pruning_preserves_paths, "C01.A6")
+    from . import runrules as R
+    from .extra import rule_plan_records_dependencies
+    rr = R.discover(ctx.model, r)
+    ctx.run(E.rule_callbacks_only_via_engine, "C01.A7", r, [rr.runcb, rr.stalecb])
+    ctx.run(rule_plan_records_dependencies, "C01.A7")
+    ctx.run(E.rule_catch_all, "C01.A1", r)
